@@ -142,6 +142,12 @@ func (s *Stream) u64List(feature string) []uint64 {
 		return nil
 	}
 	n := rapid.IntRange(0, 4).Draw(s.T, "lln")
+	if s.Rare("longbuckets", 30) {
+		// realistic and larger bucket lists (the default SDK histogram has 16
+		// buckets; exponential histograms up to 160 and more)
+		n = rapid.SampledFrom([]int{17, 16, 160, 300, 15}).Draw(s.T, "llnlong")
+		s.Stats["long_bucket_list"]++
+	}
 	out := make([]uint64, n)
 	switch rapid.IntRange(0, 3).Draw(s.T, "llk") {
 	case 0: // all zero
@@ -165,6 +171,9 @@ func (s *Stream) f64List(feature string) []float64 {
 		return nil
 	}
 	n := rapid.IntRange(0, 4).Draw(s.T, "fln")
+	if s.Rare("longbounds", 30) {
+		n = rapid.SampledFrom([]int{16, 15, 159, 300, 17}).Draw(s.T, "flnlong")
+	}
 	out := make([]float64, n)
 	switch rapid.IntRange(0, 3).Draw(s.T, "flk") {
 	case 0:
